@@ -91,6 +91,7 @@ func ruleOU2(c *Ctx) {
 	if n == 0 {
 		c.bad("main", "RunE-closures", "-", "no cobra RunE closures found")
 	}
+	c.groupCommandsFail()
 	// execute -> exitErr
 	ex, ee := c.Fn("main.execute"), c.Fn("main.exitErr")
 	if ex == nil || ee == nil {
